@@ -104,10 +104,16 @@ func (p *Processor) handleMessage(ctx context.Context, k *common.MessagePublicat
 		// unmarshal vaa
 		var existing *vaa.VAA
 		if existing, err = vaa.Unmarshal(vb); err != nil {
-			panic("failed to unmarshal VAA from db")
-		}
-
-		if k.Timestamp.Sub(existing.Timestamp) > settlementTime {
+			// The stored bytes cannot be decoded (e.g. a VAA with an empty payload). This must not
+			// take the guardian down: log it and process the observation as if nothing was stored.
+			p.logger.Error("failed to unmarshal VAA from db",
+				zap.Stringer("emitter_chain", k.EmitterChain),
+				zap.Stringer("target_chain", k.TargetChain),
+				zap.Stringer("emitter_address", k.EmitterAddress),
+				zap.String("message_id", v.MessageID()),
+				zap.Error(err),
+			)
+		} else if k.Timestamp.Sub(existing.Timestamp) > settlementTime {
 			p.logger.Info("ignoring observation since we already have a quorum VAA for it",
 				zap.Stringer("emitter_chain", k.EmitterChain),
 				zap.Stringer("target_chain", k.TargetChain),
